@@ -195,6 +195,9 @@ def hammer_records(jp, rng, n_threads, iterations, light=False):
     return recs
 
 
+FREED = [0]     # schedules given up because a thread blocked on a lock a suspended thread held (locking code is correct code)
+
+
 def preempt_records(jp, rng, runs_per_scenario, only_shared_prefix=None):
     """Two (or three) threads under the line-granularity scheduler of harness/sched.py: only one runs at a time and the
     token changes hands at chosen 'line' events INSIDE the package - also where CPython itself never switches (between two
@@ -281,6 +284,7 @@ def preempt_records(jp, rng, runs_per_scenario, only_shared_prefix=None):
             s = sched.LineScheduler(bodies, plan, pkg)
             results = s.run(timeout=30.0)
             n_sched += 1
+            FREED[0] += s.freed
             if s.stuck:
                 stuck += 1
                 if stuck > 3:
@@ -536,6 +540,7 @@ def run(chk: core.Check, tier: str, seed: int) -> None:
     precs, n_sched, stuck = preempt_records(jp, rng, 40 if tier == "quick" else 100000)
     recs += precs
     chk.notes["preemption_schedules"] = n_sched
+    chk.notes["preemption_schedules_released_because_a_thread_blocked_on_a_lock"] = FREED[0]
     if stuck:
         chk.violation({"clause": "a thread did not finish under a pre-emptive schedule"}, {"schedules_stuck": stuck})
     for nt in ((4, 8) if tier == "quick" else (2, 4, 8, 16)):
